@@ -418,7 +418,7 @@ def _task(t):
             sig = {"klass": klass, "kind": kind}
             k = common.sig_hash(sig)
             if k not in viols:
-                viols[k] = {"sig": sig, "count": 0, "what": "%s: %s" % (desc, text), "case": {"kind": kind, "spec": spec}}
+                viols[k] = {"sig": sig, "count": 0, "what": "%s: %s" % (desc, text), "case": {"kind": kind, "spec": e5.compact(spec) if kind == "flat" else spec}}
             viols[k]["count"] += 1
         os.chdir(_Q["base"])
         shutil.rmtree(os.path.join(_Q["base"], "t%d" % _Q["n"]), True)
@@ -430,6 +430,8 @@ def flat_specs(level, p):
     if level == 0:
         sp = sp[::5]
     # traces with no public value at all and with trailing unflushed equations matter here
+    # one large trace: more than 4096 equations in one function context (thorough: more than 65536)
+    sp = [e5.big_trace(300, 4500, p)] + ([e5.big_trace(3000, 66000, p)] if level >= 1 else []) + sp
     return sp
 
 
@@ -514,7 +516,7 @@ def replay(case):
     _init_once()
     spec = case["spec"]
     if case["kind"] == "flat":
-        spec = {"vars": [tuple(v) for v in spec["vars"]], "cons": [tuple(c) for c in spec["cons"]]}
+        spec = e5.expand(spec, p)
         res, _ = run_flat(spec, p)
     elif case["kind"] == "hist":
         spec["inp"] = tuple(spec["inp"])
